@@ -155,6 +155,37 @@ Prune == /\ "Prune" \in Ops /\ PruneT
 Bifurcating == /\ "Bifurcating" \in Ops /\ SameT
                /\ Log("Bifurcating", <<>>, BifurcCls(tree), NoExp)
 
+(* read-only queries of the current tree, emitted in four parts (an emitted line   *)
+(* must stay well below 8 KB), for trees of at most MaxQueryTips tips              *)
+MaxQueryTips == 5
+QueryExp(T, part) ==
+    LET tips == TipsOf(T)
+        nodes == Nodes(T)
+    IN CASE part = "dist" ->
+              [nodedist |-> {<<u, v, NodeDist(T, u, v)>> : u, v \in nodes},
+               lcaset   |-> {<<S, LCASet(T, S)>> : S \in (SUBSET tips) \ {{}}},
+               maxdist  |-> Diameter(T),
+               farpairs |-> FarPairs(T),
+               sametopo |-> IF RootDeg(T) >= 3 /\ ~HasUnary(T)
+                            THEN {<<p[1], p[2], Splits(T) = Splits(SwapTips(T, p[1], p[2]))>> :
+                                      p \in {q \in tips \X tips : Rank[q[1]] < Rank[q[2]]}}
+                            ELSE {}]
+         [] part = "lca" ->
+              [lca2    |-> {<<u, v, LCA(T, u, v)>> : u, v \in Dom(T)},
+               enddist |-> {<<S, RestrictDists(Dists(T), S)>> :
+                               S \in {X \in SUBSET tips : Cardinality(X) = 2
+                                         \/ (Cardinality(X) >= 2 /\ Cardinality(X) + 1 >= Cardinality(tips))}}]
+         [] part = "conn" ->
+              [conn |-> {<<p[1], p[2], ConnPath(T, p[1], p[2])>> : p \in {q \in nodes \X nodes : q[1] # q[2]}}]
+         [] part = "edgenames" ->
+              [edgenames |-> {<<q[1], q[2], q[3], EdgeNames(T, q[1], q[2], q[3])>> :
+                                 q \in {r \in tips \X tips \X (tips \cup {NoOutgroup}) :
+                                           Rank[r[1]] < Rank[r[2]] /\ r[3] # r[1] /\ r[3] # r[2]}}]
+Query(part) ==
+    /\ "Query" \in Ops /\ SameT /\ Cardinality(TipsOf(tree)) <= MaxQueryTips
+    /\ Emit([from |-> tree, act |-> "Query", args |-> <<part>>, to |-> tree', obs |-> NoExp,
+             cls |-> "any", exp |-> QueryExp(tree, part)])
+
 Next == \/ tree = EMPTY /\ \E p \in Shapes : \E lens \in LenChoices(p) : Make(p, lens)
         \/ \E op \in {"NewickRT", "NewickNamesRT", "NewickDefaultRT", "JsonRT", "RichDictRT",
                       "Copy", "DeepCopy", "CopyModule", "DndRT"} : Same(op)
@@ -166,6 +197,7 @@ Next == \/ tree = EMPTY /\ \E p \in Shapes : \E lens \in LenChoices(p) : Make(p,
         \/ RootAtMidpoint
         \/ Prune
         \/ Bifurcating
+        \/ \E part \in {"dist", "lca", "conn", "edgenames"} : Query(part)
 
 Spec == Init /\ [][Next]_vars
 
@@ -200,4 +232,34 @@ RerootLandsThere ==
 UnrootedDegree ==
     [][UnrootedT /\ CollapseCandidates(tree) # {} =>
           RootDeg(tree') >= 3 \/ \E c \in CollapseCandidates(tree) : Cardinality(Kids(tree, c)) = 1]_vars
+
+(* ---- laws of the queries ----------------------------------------------------------- *)
+(* the edges get_connecting_edges names between two tips add up to their distance *)
+ConnectingEdgesSpanThePath ==
+    Live => \A u, v \in TipsOf(tree) :
+               u # v => LET s == ConnPath(tree, u, v) IN SeqLen(tree, s, Len(s)) = PathLen(tree, u, v)
+(* a path read the other way round is the reversed path *)
+ConnectingEdgesReverse ==
+    Live => \A u, v \in Nodes(tree) : u # v => ConnPath(tree, v, u) = Rev(ConnPath(tree, u, v))
+(* the common ancestor of a set of tips is above all of them and none of its children is *)
+LCAIsLowest ==
+    Live => \A S \in (SUBSET TipsOf(tree)) \ {{}} :
+               LET w == LCASet(tree, S)
+               IN /\ \A t \in S : w \in Anc(tree, t)
+                  /\ \A c \in Kids(tree, w) : \E t \in S : c \notin Anc(tree, t)
+(* with an outgroup the clade of two tips does not depend on where the root is *)
+CladeWithOutgroupIsRootFree ==
+    [][\A n \in Nodes(tree) : RootedAtT(n) =>
+          \A t1, t2, o \in TipsOf(tree) :
+              (t1 # t2 /\ o # t1 /\ o # t2) =>
+                  EdgeNames(tree', t1, t2, o) = EdgeNames(tree, t1, t2, o)]_vars
+(* ... and it is the part of the tree cut off by its stem, on the side away from the outgroup *)
+CladeIsTheFarSideOfItsStem ==
+    Live => \A t1, t2, o \in TipsOf(tree) :
+               (t1 # t2 /\ o # t1 /\ o # t2) =>
+                   LET en == EdgeNames(tree, t1, t2, o)
+                       R == Reroot(tree, o)
+                   IN /\ en.stem # "!root"
+                      /\ {e \in en.clade : IsTip(R, e)} = Below(R, en.stem)
+                      /\ t1 \in Below(R, en.stem) /\ t2 \in Below(R, en.stem) /\ o \notin Below(R, en.stem)
 =============================================================================
